@@ -871,6 +871,83 @@ async def real_two_clients(kind: str, msgs_a: list[bytes], msgs_b: list[bytes], 
              "notes": rec.notes, "replies": [], "outcomes": rec.outcomes()} for who, rec in downs.items()]
 
 
+async def real_burst_then_close(kind: str, msgs: list[bytes], tmpdir: str) -> list[dict[str, Any]]:
+    """The real client transport writes a burst to a peer that reads SLOWLY (small socket buffers, so part of the
+    burst is still buffered on the client side) and then closes: every message whose write() returned must still
+    reach the peer, in order, before end-of-stream.  The peer is the harness's reference line reader."""
+    import binascii
+    import socket as _socket
+
+    up = Rec(msgs)
+    done = asyncio.Event()
+
+    async def peer(r: asyncio.StreamReader, w: asyncio.StreamWriter) -> None:
+        instrument_reader(r, on_feed=up.feed, on_eof=up.close)
+        try:
+            await asyncio.sleep(0.5)  # the peer is busy while the burst arrives
+            while True:
+                up.begin(0)
+                line = await r.readline()
+                if not line:
+                    up.end("Empty")
+                    break
+                if not line.endswith(b"\n"):
+                    up.note("line-cut-at-end-of-stream")
+                    up.end("Error")
+                    continue
+                try:
+                    up.end("Msg", binascii.unhexlify(line.strip()))
+                except binascii.Error:
+                    up.note("undecodable-line")
+                    up.end("Error")
+                await asyncio.sleep(0.0005)
+        finally:
+            w.close()
+            done.set()
+
+    if kind == "tcp":
+        sock = _socket.socket()
+        sock.setsockopt(_socket.SOL_SOCKET, _socket.SO_RCVBUF, 4096)
+        sock.bind(("127.0.0.1", 0))
+        server = await asyncio.start_server(peer, sock=sock, limit=2 ** 16)
+        uri = f"tcp-lines://127.0.0.1:{sock.getsockname()[1]}"
+    else:
+        path = os.path.join(tmpdir, f"b{len(os.listdir(tmpdir))}.sock")
+        server = await asyncio.start_unix_server(peer, path, limit=2 ** 16)
+        uri = f"unix-lines://{path}"
+    try:
+        tr = await CLS[kind].connect(uri, timeout=10.0)
+        try:
+            tr.writer.get_extra_info("socket").setsockopt(_socket.SOL_SOCKET, _socket.SO_SNDBUF, 4096)
+        except Exception:  # noqa: BLE001
+            pass
+        orig = tr.writer.write
+
+        def wr(data: bytes) -> None:
+            if up.open_send is not None:
+                up.ev[up.open_send]["n"] += len(data)
+            orig(data)
+
+        tr.writer.write = wr
+        for m in msgs:
+            _hand_over(up, m)
+            await tr.write(m, timeout=30.0)
+        up.open_send = None
+        up.ev.append(E("SenderClose"))
+        await _quiet_close(tr)
+        try:
+            await asyncio.wait_for(done.wait(), REAL_GUARD_S)
+        except asyncio.TimeoutError:
+            up.note("real-run-guard-expired")
+            if up.reading:
+                up.end("Hang")
+    finally:
+        server.close()
+        await server.wait_closed()
+    return [{"kind": f"real-burst-close-{kind}", "ev": up.ev, "rb": up.rb, "tab": up.tab, "wire": b"",
+             "notes": up.notes, "replies": [], "outcomes": up.outcomes()}]
+
+
 async def _quiet_close(tr: Any) -> None:
     """close() of the transport under test; a reset by the (already gone) peer is not an observation."""
     try:
